@@ -138,6 +138,39 @@ def finish(prop, tier, seed, results, reg, table, wall, timeout_ms):
                 continue
         still_unknown.append(o)
     unknown = still_unknown
+    # ---- units the engine could not execute symbolically (construct outside the subset) whose source
+    #      differs from the recorded baseline: the bounded native search decides; otherwise UNDECIDED
+    still_unsupported = []
+    for r in results:
+        if not r.get("unsupported"):
+            continue
+        changed = baseline.get("functions", {}).get(r.get("unit")) not in (None, r.get("sha256"))
+        done = False
+        if changed and r.get("kind") == "function":
+            rec = {"property": prop, "unit": r["unit"], "obligation": "unsupported-construct", "kind": "unsupported",
+                   "function": r.get("qual"), "receiver_class": r.get("cls"), "file": r.get("file"), "line": r.get("line"),
+                   "segment_sha256": r.get("sha256"),
+                   "verdict": "the changed function uses a construct outside the verifier's subset (%s); all its obligations are open; "
+                              "bounded native search of the function's replayer" % r["unsupported"],
+                   "solver_model": None, "detail": {"unsupported": r["unsupported"]},
+                   "contract": contract_text(reg, r.get("qual")), "tier": tier}
+            os.makedirs(rdir, exist_ok=True)
+            path = os.path.join(rdir, slug(r["unit"] + "__unsupported") + ".json")
+            with open(path, "w") as fh:
+                json.dump(rec, fh, indent=1, default=str)
+            native = replay_mod.try_native(path)
+            rec["native_replay"] = native
+            with open(path, "w") as fh:
+                json.dump(rec, fh, indent=1, default=str)
+            if native.get("reproduced"):
+                rel = os.path.relpath(path, VERIF)
+                lines.append("VIOLATION property=%s replay=%s" % (prop, rel))
+                violations.append({"unit": r["unit"], "obligation": "unsupported-construct", "replay": rel,
+                                   "reproduced_natively": True, "solver": "none (native search found the input)"})
+                done = True
+        if not done:
+            still_unsupported.append("%s: %s" % (r["unit"], r["unsupported"]))
+    unsupported = still_unsupported
     scan = []
     try:
         from pyvc.run import scan_assumptions
